@@ -4,7 +4,7 @@ import json
 
 CLAIMS = {
  "C01": ("static analysis: float-purity lint over go/ssa (H1), writer/reader table extraction from SSA (T1 type words, member SRID; T1c scanner coercion guard; T2 byte-order arms and order byte; T3 member-size forms of the byte decoders vs GeomLength), loop-completeness lint (D2), no-shared-result points-to check (B2g)",
-         "Decided statically: coordinates are only moved/bit-cast on the WKB/EWKB path (H1, for all float64 bit patterns); reader(writer(K)) = K on type words for the seven WKB kinds with both readers identical, members carry SRID 0, a multi geometry is coerced to its member only under len == 1 (T1c), byte-order arms are pure and the order byte is inverse between writer and readers (T1/T2), each byte-slice multi decoder steps over a member by exactly the size GeomLength states for that member kind (T3), Marshal results reference no package-level buffer (B2g); writer member loops cover all members (D2). NOT decided: value-level round-trip equality, hex/prefix framing.",
+         "Decided statically: coordinates are only moved/bit-cast on the WKB/EWKB path (H1, for all float64 bit patterns); reader(writer(K)) = K on type words for the seven WKB kinds with both readers identical, members carry SRID 0, a multi geometry is coerced to its member only under len == 1 (T1c), byte-order arms are pure and the order byte is inverse between writer and readers (T1/T2), each byte-slice multi decoder steps over a member by exactly the size GeomLength states for that member kind (T3), Marshal results reference no package-level buffer (B2g); writer member loops cover all members (D2). NOT decided: shapes larger than the enumerated ones; nil members inside multi geometries (outside the stated domain).",
          "DESIGN.md §4 C01"),
  "C02": ("static analysis: type-name/tag/depth table extraction (T5), kind typestate at the coordinates stores, loop lints (D2 member loops, D4 member delegation, L3 container reset), abstract interpretation of the constructors (A)",
          "Decided statically: JSON and BSON decoders map each RFC 7946 type name to a type whose GeoJSONType() and nesting depth match, identically in both; marshal/unmarshal documents name the same members; Ring/Bound/Collection never reach \"coordinates\"; member loops complete; NewGeometry/NewFeature total. NOT decided: float text round trip, properties/ids/foreign members, byte-identical re-marshal.",
@@ -67,7 +67,7 @@ CLAIMS = {
 
 
 EXTRA = {  # rules added after seeded changes were missed (DESIGN.md §11/§12); appended to technique and text
- "C01": ("scanner-state must-assign dataflow (G2), capacity-hint use check (T1g)", "a reused scanner publishes every field for every row (G2); GeomLength only sizes allocations (T1g)"),
+ "C01": ("scanner-state must-assign dataflow (G2), capacity-hint use check (T1g), abstract interpretation of encoder then decoders on byte-precise symbolic output (A-comp with bit-level byte provenance: each output byte is a constant or eight identified bits of one coordinate / of the SRID; multi-step: Marshal, then Unmarshal / stream Decode / Scanner.Scan in the same abstract state)", "a reused scanner publishes every field for every row (G2); GeomLength only sizes allocations (T1g); for the enumerated shapes (all nine kinds, empty and nil values, nested collections), every coordinate and the SRID unknown, both byte orders: the byte-slice decoder, the stream decoder and the SQL scanner return the kind, nesting, lengths and the very coordinates that were encoded (ring/bound as one-ring polygon) and the SRID that was written; nil encodes to no bytes; the scanner, for each of its ten destination types, applies exactly the documented coercions and returns the wrong-geometry error otherwise; hex, \\x-hex and SRID-prefix framings decode to the same value (A-comp)"),
  "C02": ("make-then-append lint (L4), points-to no-write analysis of the Marshal methods (B1)", "no slice made with a length is then appended to (L4); Marshal methods do not write the value they encode (B1)"),
  "C03": ("protobuf field/accessor table (T6), plural-method delegation (D4b), no early exit from effectful member loops (D5)", "decoder accessors fit the wire and Go type of each vectortile field (T6); Layers methods delegate per layer (D4b); feature loops do not break out early (D5)"),
  "C05": ("quadratic-copy lint (E3), decoded-non-nil postcondition (A-post), unit-level decoder entries", "no accumulator is re-copied per iteration (E3); a successful WKB decode never returns a typed nil (A-post)"),
